@@ -14,7 +14,20 @@ const codecPkg = "tars/protocol/codec"
 var decodePkgs = []string{"tars/protocol/codec", "tars/protocol/tup"}
 
 func isBytesReader(t types.Type) bool {
-	return typeID(t) == "bytes.Reader"
+	if typeID(t) == "bytes.Reader" {
+		return true
+	}
+	// an interface of the codec's own that a *bytes.Reader is used through
+	if n, ok := t.(*types.Named); ok && n.Obj().Pkg() != nil && strings.HasSuffix(n.Obj().Pkg().Path(), codecPkg) {
+		if it, ok := n.Underlying().(*types.Interface); ok {
+			for i := 0; i < it.NumMethods(); i++ {
+				if m := it.Method(i).Name(); m == "Read" || m == "ReadByte" {
+					return true
+				}
+			}
+		}
+	}
+	return false
 }
 
 // lenMatches: does value y denote the length of slice p? (len(p), cap of an array slice, or the
